@@ -1,7 +1,7 @@
 CONSTANTS MaxNodes = 5
 MaxWidth = 12
 Mode = "enum"
-NTexts = 4
+NTexts = 2
 INIT Init
 NEXT Next
 INVARIANTS Laws
